@@ -35,7 +35,9 @@ def run(c):
         ((2, 1, 1, 1, 1), "{1}", '{"type", "heightlow"}', 4 if not thorough else 5, 2, 2),
         ((3, 2, 2, 2), "{1}", '{"addr"}', 5 if not thorough else 6, 4, 2),
         ((5, 1, 1), "{1, 2}", '{"index", "chain"}', 5 if not thorough else 7, 2, 1),
-    ]
+        # totals that leave remainder 2 when divided by three (5, 8): the third residue class of the threshold formula
+        ((2, 1, 1, 1), "{1}", '{"sig"}', 5 if not thorough else 6, 4, 2),
+    ] + ([((3, 2, 2, 1), "{1}", '{"sig"}', 5, 4, 2)] if thorough else [])
     for (pw, sv, ik, mo, sq, st) in vectors:
         name = "MCgen"
         files = mc_files("MC_VoteSet", name, pw)
